@@ -2,7 +2,7 @@
    indices of the cases on which the model and the observed behaviour of the
    real code differ, or on which the specification predicate fails on the
    observed directory trees. *)
-From V Require Import Common.Base C17.WriteSM C17.Spec C17.IOFail C17.PathModel.
+From V Require Import Common.Base C17.WriteSM C17.Spec C17.IOFail C17.PathModel C17.Modes.
 
 Fixpoint mism_from {A} (f : A -> bool) (l : list A) (i : nat) : list nat :=
   match l with
@@ -31,10 +31,11 @@ Definition compile_ok (c : compile_case) : bool :=
   pc_list_eqb (map (fun o => (o_path o, o_data o)) kept) gout && Bool.eqb err gerr.
 Definition check_compile := mismatches compile_ok.
 
-(* validateBuildOptions through the public API: (write, allow-overwrite, an
+(* validateBuildOptions through the public API: (mode: 0 Build, 1 Context,
+   2 Context+Serve, 3 Context+Watch, 4 the CLI; write, allow-overwrite, an
    output on an input was refused) *)
-Definition allow_ok (c : bool * bool * bool) : bool :=
-  let '(w, a, refused) := c in Bool.eqb (negb (effective_allow (mkOpts w a false))) refused.
+Definition allow_ok (c : Z * bool * bool * bool) : bool :=
+  let '(m, w, a, refused) := c in Bool.eqb (negb (effective_allow (mode_opts (mode_of_Z m) w a false))) refused.
 Definition check_allow := mismatches allow_ok.
 
 (* ---- histories of one context on a real directory ----
